@@ -235,6 +235,8 @@ pub struct StageResult {
     pub big_alloc_sites: BTreeMap<String, u64>,
     pub wall_s: f64,
     pub workers_restarted: u64,
+    /// Cases that exceeded the CPU deadline under load but finished in the isolated re-run (not hangs).
+    pub slow_cases: u64,
 }
 
 fn slow_ms() -> u64 {
@@ -429,6 +431,9 @@ struct Child {
     pid: libc::pid_t,
     /// (case, when the parent first saw it being executed)
     seen: Option<(u64, Instant)>,
+    /// CPU seconds of the worker process when the case had been running for 1 s of wall time, and when that
+    /// was last sampled.
+    cpu0: Option<(f64, Instant)>,
     /// The chunk this child is working on.
     chunk: Option<(u32, u64, u64)>,
 }
@@ -442,6 +447,32 @@ fn signal_name(sig: i32) -> &'static str {
         libc::SIGKILL => "SIGKILL",
         libc::SIGFPE => "SIGFPE",
         _ => "signal",
+    }
+}
+
+/// CPU seconds (user + system) consumed so far by a process.
+fn cpu_seconds(pid: libc::pid_t) -> Option<f64> {
+    let stat = std::fs::read_to_string(format!("/proc/{pid}/stat")).ok()?;
+    let rest = &stat[stat.rfind(')')? + 2..];
+    let f: Vec<&str> = rest.split(' ').collect();
+    // fields after "pid (comm) ": state is index 0, utime index 11, stime index 12
+    let ut: f64 = f.get(11)?.parse().ok()?;
+    let stt: f64 = f.get(12)?.parse().ok()?;
+    let hz = unsafe { libc::sysconf(libc::_SC_CLK_TCK) } as f64;
+    Some((ut + stt) / hz.max(1.0))
+}
+
+/// Wall-clock limit of the isolated confirmation run of a suspected hang.
+pub const CONFIRM_DEADLINE: Duration = Duration::from_secs(8);
+/// A case that is blocked (no CPU use) is given up after this long.
+const BLOCKED_DEADLINE: Duration = Duration::from_secs(60);
+
+fn verdict_line(v: &Result<Verdict, (String, String)>) -> String {
+    match v {
+        Ok(Verdict::Fine { .. }) => "FINE".into(),
+        Ok(Verdict::Trivial) => "FINE".into(),
+        Ok(Verdict::Violation(f)) => finding_line(f),
+        Err((msg, file)) => format!("PANIC\t{}\t{}", esc(msg), esc(file)),
     }
 }
 
@@ -460,6 +491,7 @@ pub fn run_stages<S: Stages>(st: &'static S, workers: usize, dir: &std::path::Pa
     let mut children: Vec<Option<Child>> = (0..n).map(|_| None).collect();
     let mut results = Vec::new();
     let t_all = Instant::now();
+    let mut confirmed_hangs: std::collections::HashSet<String> = Default::default();
 
     let spawn = |i: usize| -> Child {
         let slot = &slots[i];
@@ -473,7 +505,7 @@ pub fn run_stages<S: Stages>(st: &'static S, workers: usize, dir: &std::path::Pa
         if pid == 0 {
             child_main(st, slot, path);
         }
-        Child { pid, seen: None, chunk: None }
+        Child { pid, seen: None, cpu0: None, chunk: None }
     };
 
     for stage in 0..st.n_stages() {
@@ -495,6 +527,7 @@ pub fn run_stages<S: Stages>(st: &'static S, workers: usize, dir: &std::path::Pa
         queue.reverse();
         let mut extra: Vec<Finding> = Vec::new();
         let mut capped = false;
+        let mut slow_cases = 0u64;
         // counters are cumulative per slot: remember the baseline
         let base: Vec<[u64; N_COUNTERS]> = slots.iter().map(|s| std::array::from_fn(|k| s.counters[k].load(Relaxed))).collect();
         loop {
@@ -570,35 +603,122 @@ pub fn run_stages<S: Stages>(st: &'static S, workers: usize, dir: &std::path::Pa
                         let in_case = slot.in_case.load(Acquire) == 1;
                         match c.seen {
                             Some((k, t)) if k == cur && in_case => {
-                                if t.elapsed() > CASE_DEADLINE {
-                                    // hang: kill the worker, report the case, hand the rest of the chunk back
+                                let wall = t.elapsed();
+                                let mut hung = wall > BLOCKED_DEADLINE;
+                                if wall > Duration::from_millis(400) {
+                                    match c.cpu0 {
+                                        None => c.cpu0 = cpu_seconds(c.pid).map(|x| (x, Instant::now())),
+                                        Some((base, last)) if last.elapsed() > Duration::from_millis(100) => {
+                                            if let Some(now) = cpu_seconds(c.pid) {
+                                                if now - base > CASE_DEADLINE.as_secs_f64() {
+                                                    hung = true;
+                                                }
+                                                c.cpu0 = Some((base, Instant::now()));
+                                            }
+                                        }
+                                        _ => {}
+                                    }
+                                }
+                                if hung {
+                                    // suspected hang: kill the worker, hand the rest of the chunk back
                                     unsafe {
                                         libc::kill(c.pid, libc::SIGKILL);
                                         let mut st2 = 0;
                                         libc::waitpid(c.pid, &mut st2, 0);
                                     }
                                     if let Some((stg, _s, e)) = c.chunk.take() {
-                                        let (decoded, _, payload) = st.describe(stg, cur);
-                                        extra.push(Finding {
-                                            fingerprint: format!("{} outcome=hang", st.fp_prefix(stg, cur)),
-                                            decoded,
-                                            expected: "Ok or io::Error within the 2 s per-case deadline".into(),
-                                            observed: "no result after 2 s; the worker was killed".into(),
-                                            payload,
-                                            stage: stg,
-                                            case: cur,
-                                        });
+                                        let fp = format!("{} outcome=hang", st.fp_prefix(stg, cur));
+                                        // the first suspect of a class is confirmed in isolation with a longer deadline
+                                        let confirmed = if confirmed_hangs.contains(&fp) {
+                                            true
+                                        } else {
+                                            let r = run_isolated(
+                                                || {
+                                                    arm(false);
+                                                    verdict_line(&vmc::catch(|| st.run(stg, cur)))
+                                                },
+                                                CONFIRM_DEADLINE,
+                                            );
+                                            match r {
+                                                Err(e) if e.contains("hang") => {
+                                                    confirmed_hangs.insert(fp.clone());
+                                                    true
+                                                }
+                                                Err(e) => {
+                                                    // died in isolation: a crash, reported as such
+                                                    let (decoded, _, payload) = st.describe(stg, cur);
+                                                    extra.push(Finding {
+                                                        fingerprint: format!("{} {e}", st.fp_prefix(stg, cur)),
+                                                        decoded,
+                                                        expected: "Ok or io::Error".into(),
+                                                        observed: format!("the isolated re-run died: {e}"),
+                                                        payload,
+                                                        stage: stg,
+                                                        case: cur,
+                                                    });
+                                                    false
+                                                }
+                                                Ok(line) => {
+                                                    slow_cases += 1;
+                                                    let parts: Vec<&str> = line.trim_end().split('\t').collect();
+                                                    match parts.as_slice() {
+                                                        ["V", stage, case, fp, decoded, expected, observed, payload] => {
+                                                            if let (Ok(stage), Ok(case)) = (stage.parse(), case.parse()) {
+                                                                extra.push(Finding { fingerprint: unesc(fp), decoded: unesc(decoded), expected: unesc(expected), observed: unesc(observed), payload: unesc(payload), stage, case });
+                                                            }
+                                                        }
+                                                        ["PANIC", msg, file] => {
+                                                            let (decoded, _, payload) = st.describe(stg, cur);
+                                                            let msg = unesc(msg);
+                                                            extra.push(Finding {
+                                                                fingerprint: format!("{} outcome=panic msg={} file={}", st.fp_prefix(stg, cur), vmc::normalise_msg(&msg), unesc(file)),
+                                                                decoded,
+                                                                expected: "Ok or io::Error".into(),
+                                                                observed: format!("panic: {msg}"),
+                                                                payload,
+                                                                stage: stg,
+                                                                case: cur,
+                                                            });
+                                                        }
+                                                        _ => {}
+                                                    }
+                                                    false
+                                                }
+                                            }
+                                        };
+                                        if confirmed {
+                                            let (decoded, _, payload) = st.describe(stg, cur);
+                                            extra.push(Finding {
+                                                fingerprint: fp,
+                                                decoded,
+                                                expected: "Ok or io::Error within 2 s of CPU time".into(),
+                                                observed: format!("no result after 2 s of CPU time (and, for the first case of this class, {} s in an isolated re-run); the worker was killed", CONFIRM_DEADLINE.as_secs()),
+                                                payload,
+                                                stage: stg,
+                                                case: cur,
+                                            });
+                                            slot.counters[C_NONTERM].fetch_add(1, Relaxed);
+                                        }
                                         slot.counters[C_CASES].fetch_add(1, Relaxed);
-                                        slot.counters[C_NONTERM].fetch_add(1, Relaxed);
-                                        if cur + 1 < e {
-                                            queue.push((cur + 1, e));
+                                        // hangs cluster: spread the rest of the chunk over the workers
+                                        let rest = e.saturating_sub(cur + 1);
+                                        if rest > 0 {
+                                            let piece = rest.div_ceil(n as u64).max(1);
+                                            let mut p = cur + 1;
+                                            while p < e {
+                                                queue.push((p, (p + piece).min(e)));
+                                                p += piece;
+                                            }
                                         }
                                     }
                                     res.workers_restarted += 1;
                                     children[i] = None;
                                 }
                             }
-                            _ => c.seen = Some((cur, Instant::now())),
+                            _ => {
+                                c.seen = Some((cur, Instant::now()));
+                                c.cpu0 = None;
+                            }
                         }
                     }
                     _ => busy += 1,
@@ -621,6 +741,7 @@ pub fn run_stages<S: Stages>(st: &'static S, workers: usize, dir: &std::path::Pa
             }
         }
         res.cases = res.counters[C_CASES];
+        res.slow_cases = slow_cases;
         res.wall_s = t0.elapsed().as_secs_f64();
         if capped {
             res.name = format!("{name} CAPPED");
